@@ -82,6 +82,29 @@ def run(ctx):
                     break
                 prev_committed = committed
                 recs.append((r, rr, names))
+            # a dry run, then an edit (in place - the function objects stay the same - or with a reload), then the full run:
+            # the full run is of the edited code
+            for ek in ("inplace_var", "var", "body", "inplace_var"):
+                e = progs.apply_edit(rng, s.world, ek)
+                if e is None:
+                    continue
+                k = rng.choice([1, 2, 2, 4])
+                r0, _ = s.run(entry, {"stages": ORDER[:k]})
+                w2, desc = e
+                if desc.get("inplace"):
+                    s.mutate_in_place(w2, desc["inplace"])
+                else:
+                    s.set_world(w2, desc.get("order"))
+                r, rr = s.run(entry)
+                res.evaluations += 2
+                res.count("dry_run_then_edit_" + ek)
+                res.nontrivial("%d dry-edit %s %d" % (wi, ek, k))
+                if r0["error"] is None and rr["error"] is None and (
+                        r["error"] is not None or pipeline.norm_ext(r["value"]) != pipeline.norm_ext(rr["value"])):
+                    res.violations.append({"what": "full evaluation after (restricted run with stages %s, then edit %s) returned %r (error %s), plain execution of the edited code gives %r" % (
+                        ORDER[:k], desc, r["value"], r["error"], rr["value"]),
+                        "input": {"stages": ORDER[:k], "edit": desc, "store": store_kind, "source": progs.render_world(s.world, "extmod")}, "kf": None})
+                    break
             # invalid lists must be refused with a DDS error and do nothing
             for badlist in (["eval"], ["analysis", "eval"], ["analysis", "nonsense"], ["path_commit"]):
                 r, rr = s.run(entry, {"stages": badlist})
